@@ -181,7 +181,6 @@ def _parse_op(description, el_op, invocation, allow_concat=False, implicit_outpu
                 # -> Replace single input bracket with single output bracket
                 def _to_output(expr):
                     bracket_num = len([e for e in expr.nodes() if isinstance(e, stage1.Brackets)])
-                    assert bracket_num > 0
                     if bracket_num == 1:
 
                         def _replace(expr):
@@ -215,7 +214,14 @@ def _parse_op(description, el_op, invocation, allow_concat=False, implicit_outpu
     op = stage1.Op([stage1.Args(exprs_in), stage1.Args(exprs_out)])
     el_subop = _to_el_expr(op)
     assert len(el_op.children[0].children) == len(el_subop.children[0].children)
-    assert len(el_op.children[1].children) == len(el_subop.children[1].children)
+    if len(el_op.children[1].children) != len(el_subop.children[1].children):
+        raise SemanticError(
+            invocation=invocation,
+            message=(
+                f"The operation expects {len(el_op.children[1].children)} output expression(s), but {len(el_subop.children[1].children)} "
+                "could be determined implicitly. Please provide the output expression(s) explicitly.\n%EXPR%"
+            ),
+        )
 
     # Check bracket usage
     def _to_ordinal_str(i):
@@ -699,7 +705,7 @@ def _equations_stage3_index_at(exprs_in, exprs_out, invocation, is_update):
     if marked_coord_axis.value is not None and marked_coord_axis.value != len(marked_axes_in):
         raise SemanticError(
             invocation=invocation,
-            pos=invocation.indicator.get_pos_for_axisnames(exprs_in + exprs_out, [marked_coord_axis.name] + [expr.name for expr in marked_axes_in]),
+            pos=invocation.indicator.get_pos_for_axisnames(exprs_in + exprs_out, [expr.name for expr in coords_axes] + [expr.name for expr in marked_axes_in]),
             message=(
                 f"The sum of the lengths of marked coordinate axes ({marked_coord_axis.value}) must match the number of marked axes "
                 f"in the first input expression ({len(marked_axes_in)}).\n%EXPR%"
